@@ -220,17 +220,17 @@ def job_svg_glyphs(jc):
     inp = {"lo": core.SymNum(z3.Int("lo")), "span": core.SymNum(z3.Int("span"))}
 
     def body():
-        lo = core.integer("lo", 1, 3).concretize()
-        span = core.integer("span", 0, 3).concretize()
+        # wide enough that one glyph id is a decimal prefix of another in the same document (2 and 20..29, 10 and 100..)
+        lo = core.integer("lo", 1, 11).concretize()
+        span = core.integer("span", 0, 20 if jc.tier == "quick" else 100).concretize()
         gids = list(range(lo, lo + span + 1))
         doc = '<svg xmlns="http://www.w3.org/2000/svg"><defs/>' + "".join(f'<g id="glyph{g}"><path d="M0,0 L{g},0 L0,{g} Z"/></g>' for g in gids) + "</svg>"
         font = {"SVG ": Tbl(docList=[(doc, gids[0], gids[-1])])}
         return gids, list(XS.svg_glyphs(font))
 
-    results = jc.explore(body)
+    results = jc.explore(body, max_paths=5000)
     for r in results:
-        if r.exc is not None:
-            jc.inconclusive.append(f"svg_glyphs raised {r.exc!r}")
+        if not jc.no_exception(r, inp, replay_svg_glyphs, "C12:svg_glyphs:raises"):
             continue
         gids, out = r.value
         jc.reach(r, f"span {len(gids)}")
